@@ -5,6 +5,7 @@ import PgBifrost.Driver.Filter
 import PgBifrost.Driver.Partitioner
 import PgBifrost.Driver.Pipeline
 import PgBifrost.Driver.E2E
+import PgBifrost.Driver.ConnManager
 import PgBifrost.Driver.Aggregator
 import PgBifrost.Driver.Client
 import PgBifrost.Driver.Rabbit
@@ -26,6 +27,7 @@ structure DriverState where
   filter : Driver.Filter.DState := ⟨false, false, []⟩
   partitioner : Driver.Partitioner.DState := {}
   pipemon : Driver.Pipeline.MState := []
+  connmgr : Driver.ConnManager.DState := .none
   marshal : Driver.Marshal.DState := {}
   kinesis : Driver.Kinesis.DState := {}
   kafka : Driver.Kafka.DState := {}
@@ -48,6 +50,7 @@ def dispatch (st : DriverState) (line : String) : DriverState × String :=
   | "pipeline" :: _ => (st, "-")   -- environment script of the pipeline harness; judged by pipemon/ledgermon
   | "pipemon" :: args => let (s, out) := Driver.Pipeline.handle st.pipemon args; ({ st with pipemon := s }, out)
   | "e2e" :: args => (st, Driver.E2E.handle args)   -- expected stdout of the real binary = user's intent on the scripted changes
+  | "connmgr" :: args => let (s, out) := Driver.ConnManager.handle st.connmgr args; ({ st with connmgr := s }, out)
   | "cli" :: args => (st, Driver.Filter.cliHandle args)
   | "crc" :: args => (st, Driver.Batcher.crcHandle args)
   | "parser" :: args => let (_, out) := Driver.Parser.handle () args; (st, out)
